@@ -192,4 +192,329 @@ theorem obtain_inv {db : Db} {s : FState} (h : Inv db s) (c u : Sym) :
           rw [newQuantity_val (inv_empty db).1]; exact hv.symm
         · rw [hc] at hk; exact h.2 k q' hk
 
+/-! ## the extended session: alias entries, derived entries, registrations -/
+
+/-- what `ObtainQuantity(unit)` answers on a database object whose memo tables are empty -/
+def obtainUPure (db : Db) (u : Sym) : Except ErrKind Simple :=
+  match resolveDefault db u with
+  | .error e => .error e
+  | .ok (c, u') => if c = 0 then .error .type else newQuantityPure db c u'
+
+/-- what `ObtainQuantity(dict)` answers on a database object whose memo tables are empty -/
+def obtainDictPure (db : Db) (es : List Ent) : Except ErrKind Quant :=
+  match simpleCase es with
+  | some (c, u) => exMap (Quant.ofSimple db) (newQuantityPure db c u)
+  | none => newDerivedChecked db es
+
+def createDerivedPure (db : Db) (es : List Ent) : Except ErrKind Quant :=
+  match validateEntries db es with
+  | .error e => .error e
+  | .ok _ => obtainDictPure db es
+
+/-- the invariant of the extended session: whatever sits in one of the memo tables is what a database
+object with empty tables over the CURRENT registry answers -/
+structure XInv (st : XState) : Prop where
+  base : Inv st.db st.s
+  alias : ∀ u q, (u, q) ∈ st.alias → obtainUPure st.db u = .ok q
+  dcache : ∀ es q, (es, q) ∈ st.dcache → newDerivedChecked st.db es = .ok q
+
+theorem xinv_fresh (db : Db) : XInv (XState.fresh db) :=
+  ⟨inv_empty db, fun _ _ h => by simp [XState.fresh] at h, fun _ _ h => by simp [XState.fresh] at h⟩
+
+theorem lookupAlias_some {m : List (Sym × Simple)} {u : Sym} {q : Simple}
+    (h : lookupAlias m u = some q) : (u, q) ∈ m := by
+  unfold lookupAlias at h
+  cases hf : m.find? (·.1 == u) with
+  | none => rw [hf] at h; cases h
+  | some e =>
+    rw [hf] at h
+    simp only [Option.map_some, Option.some.injEq] at h
+    have hm := List.mem_of_find?_eq_some hf
+    have hk := List.find?_some hf
+    simp only [beq_iff_eq] at hk
+    obtain ⟨e1, e2⟩ := e
+    simp only at hk h
+    subst hk; subst h; exact hm
+
+theorem lookupD_some {m : List (List Ent × Quant)} {k : List Ent} {q : Quant}
+    (h : lookupD m k = some q) : (k, q) ∈ m := by
+  unfold lookupD at h
+  cases hf : m.find? (·.1 == k) with
+  | none => rw [hf] at h; cases h
+  | some e =>
+    rw [hf] at h
+    simp only [Option.map_some, Option.some.injEq] at h
+    have hm := List.mem_of_find?_eq_some hf
+    have hk := List.find?_some hf
+    simp only [beq_iff_eq] at hk
+    obtain ⟨e1, e2⟩ := e
+    simp only at hk h
+    subst hk; subst h; exact hm
+
+/-- a hit of the simple cache is the pure answer -/
+theorem cache_hit_val {db : Db} {s : FState} (h : Inv db s) {c u : Sym} {q : Simple}
+    (hl : lookupCache s.cache (c, u) = some q) : newQuantityPure db c u = .ok q := by
+  have := h.2 _ _ (lookupCache_some hl)
+  rw [newQuantity_val (inv_empty db).1] at this
+  exact this
+
+/-- on a miss of the simple cache the state after a successful creation satisfies the invariant -/
+theorem miss_inv {db : Db} {s s1 : FState} (h : Inv db s) {c u : Sym} {q : Simple}
+    (hl : lookupCache s.cache (c, u) = none) (hn : newQuantity db s c u = (s1, .ok q)) :
+    Inv db { s1 with cache := ((c, u), q) :: s1.cache } := by
+  have := obtain_inv h c u
+  unfold obtain at this
+  rw [hl] at this
+  simp only [hn] at this
+  exact this
+
+theorem miss_err_inv {db : Db} {s s1 : FState} (h : Inv db s) {c u : Sym} {e : ErrKind}
+    (hl : lookupCache s.cache (c, u) = none) (hn : newQuantity db s c u = (s1, .error e)) :
+    Inv db s1 := by
+  have := obtain_inv h c u
+  unfold obtain at this
+  rw [hl] at this
+  simp only [hn] at this
+  exact this
+
+/-- the unit string a second legacy fixing would change again (not the case for any spelling of the
+shipped list the checks have met; the code's answer for such a unit depends on the alias entries) -/
+def LegacyStable (L : List (Sym × Sym)) (u : Sym) : Prop := isLegacy L (fixLegacy L u) = false
+
+instance (L : List (Sym × Sym)) (u : Sym) : Decidable (LegacyStable L u) := by
+  unfold LegacyStable; infer_instance
+
+theorem resolveDefault_zero {db : Db} {u u' : Sym} (h : resolveDefault db u = .ok (0, u')) :
+    u' = fixLegacy db.legacy u ∧ getDefaultCategory db u' = .ok 0 := by
+  unfold resolveDefault at h
+  cases hg : getDefaultCategory db u with
+  | error e => rw [hg] at h; cases h
+  | ok c =>
+    rw [hg] at h
+    simp only at h
+    by_cases hc : (c != 0) = true
+    · simp only [hc, ↓reduceIte] at h
+      cases h
+      simp at hc
+    · simp only [hc, Bool.false_eq_true, ↓reduceIte] at h
+      by_cases hl : isLegacy db.legacy u = true
+      · simp only [hl, ↓reduceIte] at h
+        cases hg2 : getDefaultCategory db (fixLegacy db.legacy u) with
+        | error e => rw [hg2] at h; cases h
+        | ok c' =>
+          rw [hg2] at h
+          simp only at h
+          cases h
+          exact ⟨rfl, hg2⟩
+      · simp only [hl, Bool.false_eq_true, ↓reduceIte] at h
+        cases h
+
+/-- no alias entry can sit under a unit that has no default category and is not a legacy spelling -/
+theorem obtainUPure_no_category {db : Db} {u : Sym} (hg : getDefaultCategory db u = .ok 0)
+    (hl : isLegacy db.legacy u = false) (q : Simple) : obtainUPure db u ≠ .ok q := by
+  unfold obtainUPure resolveDefault
+  rw [hg]
+  simp [hl]
+
+/-- `ObtainQuantity(unit)` answers as a database object with empty memo tables does -/
+theorem obtainU_val {st : XState} (h : XInv st) (u : Sym) (hs : LegacyStable st.db.legacy u) :
+    (obtainU st u).2 = obtainUPure st.db u := by
+  unfold obtainU
+  cases ha : lookupAlias st.alias u with
+  | some q => simp only; exact (h.alias _ _ (lookupAlias_some ha)).symm
+  | none =>
+    simp only
+    unfold obtainUPure
+    cases hr : resolveDefault st.db u with
+    | error e => rfl
+    | ok cu =>
+      obtain ⟨c, u'⟩ := cu
+      simp only
+      by_cases hc : c = 0
+      · subst hc
+        simp only [↓reduceIte]
+        cases ha' : lookupAlias st.alias u' with
+        | none => rfl
+        | some q =>
+          exfalso
+          obtain ⟨hu', hg⟩ := resolveDefault_zero hr
+          have hq := h.alias _ _ (lookupAlias_some ha')
+          subst hu'
+          exact obtainUPure_no_category hg hs q hq
+      · simp only [hc, ↓reduceIte]
+        cases hl : lookupCache st.s.cache (c, u') with
+        | some q => simp only; exact (cache_hit_val h.base hl).symm
+        | none =>
+          simp only
+          have hv := newQuantity_val h.base.1 c u'
+          cases hn : newQuantity st.db st.s c u' with
+          | mk s1 r =>
+            rw [hn] at hv
+            simp only at hv
+            cases r with
+            | ok q => simpa using hv
+            | error e => simpa using hv
+
+theorem obtainU_db (st : XState) (u : Sym) : (obtainU st u).1.db = st.db := by
+  unfold obtainU
+  cases lookupAlias st.alias u with
+  | some q => rfl
+  | none =>
+    simp only
+    cases resolveDefault st.db u with
+    | error e => rfl
+    | ok cu =>
+      obtain ⟨c, u'⟩ := cu
+      simp only
+      by_cases hc : c = 0
+      · simp only [hc, ↓reduceIte]
+        cases lookupAlias st.alias u' <;> rfl
+      · simp only [hc, ↓reduceIte]
+        cases lookupCache st.s.cache (c, u') with
+        | some q => rfl
+        | none =>
+          simp only
+          cases hn : newQuantity st.db st.s c u' with
+          | mk s1 r => cases r <;> rfl
+
+theorem obtainU_inv {st : XState} (h : XInv st) (u : Sym) : XInv (obtainU st u).1 := by
+  unfold obtainU
+  cases ha : lookupAlias st.alias u with
+  | some q => exact h
+  | none =>
+    simp only
+    cases hr : resolveDefault st.db u with
+    | error e => exact h
+    | ok cu =>
+      obtain ⟨c, u'⟩ := cu
+      simp only
+      by_cases hc : c = 0
+      · simp only [hc, ↓reduceIte]
+        cases lookupAlias st.alias u' <;> exact h
+      · simp only [hc, ↓reduceIte]
+        cases hl : lookupCache st.s.cache (c, u') with
+        | some q => exact h
+        | none =>
+          simp only
+          have hv := newQuantity_val h.base.1 c u'
+          cases hn : newQuantity st.db st.s c u' with
+          | mk s1 r =>
+            rw [hn] at hv
+            simp only at hv
+            cases r with
+            | error e => exact ⟨miss_err_inv h.base hl hn, h.alias, h.dcache⟩
+            | ok q =>
+              refine ⟨miss_inv h.base hl hn, ?_, h.dcache⟩
+              intro v q' hm
+              simp only [List.mem_cons] at hm
+              rcases hm with hm | hm
+              · cases hm
+                unfold obtainUPure
+                rw [hr]
+                simp only [hc, ↓reduceIte]
+                exact hv.symm
+              · exact h.alias v q' hm
+
+theorem obtainDict_val {st : XState} (h : XInv st) (es : List Ent) :
+    (obtainDict st es).2 = obtainDictPure st.db es := by
+  unfold obtainDict obtainDictPure
+  cases hsc : simpleCase es with
+  | some cu =>
+    obtain ⟨c, u⟩ := cu
+    simp only
+    have hv := obtain_val h.base c u
+    cases ho : obtain st.db st.s c u with
+    | mk s1 r =>
+      rw [ho] at hv
+      simp only at hv
+      subst hv
+      cases newQuantityPure st.db c u <;> rfl
+  | none =>
+    simp only
+    cases hl : lookupD st.dcache es with
+    | some q => simp only; exact (h.dcache _ _ (lookupD_some hl)).symm
+    | none =>
+      simp only
+      cases newDerivedChecked st.db es <;> rfl
+
+theorem obtainDict_db (st : XState) (es : List Ent) : (obtainDict st es).1.db = st.db := by
+  unfold obtainDict
+  cases simpleCase es with
+  | some cu =>
+    obtain ⟨c, u⟩ := cu
+    simp only
+    cases ho : obtain st.db st.s c u with
+    | mk s1 r => cases r <;> rfl
+  | none =>
+    simp only
+    cases lookupD st.dcache es with
+    | some q => rfl
+    | none =>
+      simp only
+      cases newDerivedChecked st.db es <;> rfl
+
+theorem obtainDict_inv {st : XState} (h : XInv st) (es : List Ent) : XInv (obtainDict st es).1 := by
+  unfold obtainDict
+  cases hsc : simpleCase es with
+  | some cu =>
+    obtain ⟨c, u⟩ := cu
+    simp only
+    have hi := obtain_inv h.base c u
+    cases ho : obtain st.db st.s c u with
+    | mk s1 r =>
+      rw [ho] at hi
+      cases r <;> exact ⟨hi, h.alias, h.dcache⟩
+  | none =>
+    simp only
+    cases hl : lookupD st.dcache es with
+    | some q => exact h
+    | none =>
+      simp only
+      cases hn : newDerivedChecked st.db es with
+      | error e => exact h
+      | ok q =>
+        refine ⟨h.base, h.alias, ?_⟩
+        intro k q' hm
+        simp only [List.mem_cons] at hm
+        rcases hm with hm | hm
+        · cases hm; exact hn
+        · exact h.dcache k q' hm
+
+theorem createDerived_val {st : XState} (h : XInv st) (es : List Ent) :
+    (createDerived st es).2 = createDerivedPure st.db es := by
+  unfold createDerived createDerivedPure
+  cases validateEntries st.db es with
+  | error e => rfl
+  | ok _ => exact obtainDict_val h es
+
+theorem createDerived_db (st : XState) (es : List Ent) : (createDerived st es).1.db = st.db := by
+  unfold createDerived
+  cases validateEntries st.db es with
+  | error e => rfl
+  | ok _ => exact obtainDict_db st es
+
+theorem createDerived_inv {st : XState} (h : XInv st) (es : List Ent) : XInv (createDerived st es).1 := by
+  unfold createDerived
+  cases validateEntries st.db es with
+  | error e => exact h
+  | ok _ => exact obtainDict_inv h es
+
+/-- a registration never touches the legacy list -/
+theorem applyReg_legacy {db db' : Db} {r : RegOp} (h : applyReg db r = .ok db') : db'.legacy = db.legacy := by
+  cases r with
+  | addCategory c qt ov =>
+    simp only [applyReg] at h
+    by_cases h1 : (!ov && (db.catByName c).isSome) = true
+    · simp [h1] at h
+    · simp only [h1, Bool.false_eq_true, ↓reduceIte] at h
+      cases hb : baseUnit db qt with
+      | error e => rw [hb] at h; cases h
+      | ok base => rw [hb] at h; simp only at h; cases h; rfl
+  | addUnit qt name u dc k =>
+    simp only [applyReg] at h
+    by_cases h1 : (db.unitBySym u).isSome = true
+    · simp [h1] at h
+    · simp only [h1, Bool.false_eq_true, ↓reduceIte] at h
+      cases h; rfl
+
 end Barril.Fail
